@@ -139,7 +139,10 @@ nni_id_map_sys_fini(void)
 	for (int i = 0; i < id_reg_num; i++) {
 		if (id_reg_map[i] != NULL) {
 			nni_id_map_fini(id_reg_map[i]);
-			id_reg_map[i] = NULL;
+			// it has to register again if the library is
+			// initialized and used another time
+			id_reg_map[i]->id_registered = false;
+			id_reg_map[i]                = NULL;
 		}
 	}
 	id_reg_num = 0;
